@@ -103,6 +103,23 @@ def main():
     expect("token: an orphan's token file that never comes back is rejected at the quiescent point",
            v3[0]["accepted"] and not vb[0]["accepted"] and vb[0]["reached"] == cut, f"{v3[0]} {vb[0]} cut={cut}")
 
+    # ... the start of a process in its two steps: the count logged when the directory is watched is bound (a newcomer that
+    # still believes the unit of an ended job is taken is rejected there), and a log without that event is rejected
+    r4 = t2.sc_late_start_ended()
+    v4, _ = token.validate([r4])
+    bad = copy.deepcopy(r4)
+    e = next(e for e in bad["ev"] if e["e"] == "tok.watching" and e.get("p") == "p2")
+    e["available"] -= 1
+    cut = bad["ev"].index(e)
+    vb, _ = token.validate([bad])
+    expect("token: a newcomer that counts a unit as taken once it watches the directory is rejected at that event",
+           v4[0]["accepted"] and not vb[0]["accepted"] and vb[0]["reached"] == cut, f"{v4[0]} {vb[0]} cut={cut}")
+    bad = copy.deepcopy(r4)
+    bad["ev"] = [x for x in bad["ev"] if not (x["e"] == "tok.watching" and x.get("p") == "p2")]
+    vb, _ = token.validate([bad])
+    expect("token: the log without the event tok.watching is rejected (an observer that was never started handles no event)",
+           not vb[0]["accepted"], f"{vb[0]}")
+
     # 4. configurations: one corrupted byte of a tapped identifier stream
     from . import cfgcheck, checks_config
 
